@@ -13,3 +13,4 @@ def run(ctx, rep):
     from ..rules import more
     more.rule_sing_init(mod, rep)
     more.rule_lsub_request(mod, rep)
+    more.rule_pivot_found(mod, rep)
